@@ -135,9 +135,21 @@ fn dump_table<'g, K, V>(
 impl<K, V, S> HashMap<K, V, S> {
     /// Read-only structural dump of the map (current table and, during a resize, the next one).
     pub fn verif_dump<'g>(&'g self, guard: &'g Guard<'_>) -> Dump<'g, K, V> {
+        let table = self.table.load(Ordering::SeqCst, guard);
+        // the table readers are forwarded to: the current table's own forwarding target if it
+        // has one (it outlives `HashMap::next_table`, which is cleared just before the swap),
+        // else the map's next_table
+        let mut next = self.next_table.load(Ordering::SeqCst, guard);
+        if !table.is_null() {
+            // safety: read under the guard
+            let fwd = unsafe { table.deref() }.next_table(guard);
+            if !fwd.is_null() {
+                next = fwd;
+            }
+        }
         Dump {
-            table: dump_table(self.table.load(Ordering::SeqCst, guard), guard),
-            next: dump_table(self.next_table.load(Ordering::SeqCst, guard), guard),
+            table: dump_table(table, guard),
+            next: dump_table(next, guard),
             size_ctl: self.size_ctl.load(Ordering::SeqCst),
             transfer_index: self.transfer_index.load(Ordering::SeqCst),
             count: self.count.load(Ordering::SeqCst),
